@@ -40,13 +40,12 @@ def run(ctx):
     exes = build(ctx)
     if getattr(ctx, "build_only", False):
         return
-    for name in ("h11", "h11d"):
-        ctx.run_harness(exes[name], ["--part", "long"], shards=16, env=ASAN)
-    ctx.run_harness(exes["h11d"], ["--part", "release"], shards=16, env=ASAN)
-    for name in ("h11", "h11d"):
-        ctx.run_harness(exes[name], ["--part", "mp"], shards=16, env=ASAN)
-    for name in ("h11", "h11d"):
-        ctx.run_harness(exes[name], ["--part", "main"], shards=16, env=ASAN)
+    import time
+    plan = [("h11", "long"), ("h11d", "long"), ("h11d", "release"), ("h11", "mp"), ("h11d", "mp"), ("h11", "main"), ("h11d", "main")]
+    for name, part in plan:
+        t = time.time()
+        ctx.run_harness(exes[name], ["--part", part], shards=16, env=ASAN)
+        ctx.notes.append("%s --part %s: %.1fs" % (name, part, time.time() - t))
     ctx.assume("relations of interest without any wanted member are left open by the statement: completed (at most once) or "
                "never completed, listed as incomplete or not - only counted")
     ctx.assume("the order of several completions caused by one member object is not specified; callbacks (before_/after_/"
